@@ -238,7 +238,7 @@ class SpecMachine:
                         self.write(a, value_of(v, k, l, a))
                 elif op in ('sys.hw', 'sys.cyc'):
                     self.hw(int(f[1], 0))
-                elif op in ('sys.btn', 'sys.req', 'map.snap'):
+                elif op in ('sys.btn', 'sys.req', 'map.snap', 'sys.set'):
                     if op == 'sys.req':
                         self.hw_since['IF'] = True
                 elif op in ('map.wd', 'map.rd'):
